@@ -38,7 +38,7 @@ RULE = ('conversions: every component tuple of length 1..5 over {0,1,9,10,99,100
         'VersionPredicate: conjunctions of 1..3 comparisons over the six operators (all-true, exactly-one-false, '
         'range, random) x candidates on and around every bound; malformed strings. non-trivial = more than one '
         'component / two different texts / any predicate; distinct by the texts handed to the code under test')
-REQUIRED_CLAUSES = ['under-warnings-as-errors', 'concurrent-calls-answer-as-alone', 'predicate-copy-answers-the-same', 'under-lazy-translation', 'documented-keyword-call', 'roundtrip', 'str-vs-tuple-input', 'int-order', 'suffix-ignored',
+REQUIRED_CLAUSES = ['equal-valued-arguments-in-any-order', 'valid-calls-after-rejected-calls-answer-as-before', 'under-warnings-as-errors', 'concurrent-calls-answer-as-alone', 'predicate-copy-answers-the-same', 'under-lazy-translation', 'documented-keyword-call', 'roundtrip', 'str-vs-tuple-input', 'int-order', 'suffix-ignored',
                     'non-numeric-ValueError', 'compat', 'predicate-parses', 'satisfied_by',
                     'malformed-predicate-ValueError', 'model-vs-packaging-selfcheck']
 ASSUMPTIONS = ['"major number" is the first number of the release segment (epochs are not part of it)',
